@@ -56,3 +56,11 @@ def run_virtual(services, script, until, start=0.0):
 
 def now():
     return trio.current_time()
+
+
+def clock():
+    """Virtual time, or None outside a trio run (e.g. while objects are being constructed)."""
+    try:
+        return trio.current_time()
+    except RuntimeError:
+        return None
